@@ -11,3 +11,6 @@ def check(ctx: Ctx) -> None:
     CT.r_buffer(ctx, "R16.4")
     # a command that is listed but cannot be executed (its arguments filed under names the session does not look up) is not available
     CT.r_executable(ctx, "R16.5")
+    # ... for every well-formed argument list, none at all for a variadic parameter included: the session pops every parameter, so it
+    # relies on argparse filling in what the client left out (argument_default=SUPPRESS would leave it out of the namespace)
+    CT.r_parser_config(ctx, "R16.6")
